@@ -87,6 +87,9 @@ Closure(S) == LET N == S \cup {k \in DOMAIN rules : \E j \in S : SeqSet(rules[k]
 ScopeIdx(gl) == IF gl = "" THEN DOMAIN rules
                 ELSE IF gl \in AllTargets THEN Closure({CHOOSE k \in DOMAIN rules : gl \in SeqSet(rules[k].tg)})
                 ELSE {}
+\* dependency analysis must succeed exactly then (C12): no path is a target twice, the goal is a target, no cycle in scope
+SortOK(gl) == NoDupTargets(rules) /\ (gl = "" \/ gl \in AllTargets) /\ Peel(rules, ScopeIdx(gl)) = {}
+RulesSane == NoDupTargets(rules) /\ Acyclic(rules)
 ScopeTargets(gl) == UNION {SeqSet(rules[k].tg) : k \in ScopeIdx(gl)}
 ScopeLeaves(gl) == (UNION {SeqSet(rules[k].src) : k \in ScopeIdx(gl)}) \ AllTargets
 
@@ -94,11 +97,11 @@ ScopeLeaves(gl) == (UNION {SeqSet(rules[k].src) : k \in ScopeIdx(gl)}) \ AllTarg
 RECURSIVE Post(_, _)
 Post(r, acc) ==
   IF InSeq(r, acc) THEN acc
-  ELSE LET RECURSIVE Fold(_, _)
-           Fold(j, a) == IF j > Len(r.src) THEN a
-                         ELSE IF IsTarget(r.src[j]) THEN Fold(j + 1, Post(Producer(r.src[j]), a))
-                         ELSE Fold(j + 1, a)
-       IN Append(Fold(1, acc), r)
+  ELSE LET RECURSIVE FoldSrc(_, _)
+           FoldSrc(j, a) == IF j > Len(r.src) THEN a
+                         ELSE IF IsTarget(r.src[j]) THEN FoldSrc(j + 1, Post(Producer(r.src[j]), a))
+                         ELSE FoldSrc(j + 1, a)
+       IN Append(FoldSrc(1, acc), r)
 
 PlanNodes(gl) ==
   IF gl # "" THEN Post(Producer(gl), <<>>)
@@ -138,7 +141,7 @@ BelievedIn(W, p, a) == IF ~Has(W, p) THEN "none"
                        ELSE IF W[p].m = a.m THEN a.h ELSE W[p].c
 
 (* ---------------- ghost ---------------------------------------------------- *)
-NoPre == [ws |-> EmptyF, cache |-> EmptyF, hist |-> EmptyF, fstab |-> EmptyF]
+NoPre == [ws |-> EmptyF, cache |-> EmptyF, hist |-> EmptyF, fstab |-> EmptyF, tab |-> "absent", htorn |-> {}]
 G0 == [kind |-> "none", goal |-> "", pre |-> NoPre, execs |-> {}, dup |-> FALSE, baks |-> {}, takes |-> {},
        ever |-> {}, utd |-> EmptyF, sinceCrash |-> FALSE, expect |-> <<>>, nuser |-> 0,
        ever0 |-> {}, utd0 |-> EmptyF, sc0 |-> FALSE]
@@ -151,9 +154,9 @@ Recorded(execs, errs) ==
                                                /\ errs[j][3] = x.rid}}
 
 \* the fold: a function of the previous ghost, the event and the disk state after the event
-Fold(gg, e, W, C, H, T, scopeT) ==
+Fold(gg, e, W, C, H, T, D, scopeT) ==
   CASE e.a \in {"build", "clean"} ->
-         [gg EXCEPT !.kind = e.a, !.goal = e.g, !.pre = [ws |-> W, cache |-> C, hist |-> H, fstab |-> T],
+         [gg EXCEPT !.kind = e.a, !.goal = e.g, !.pre = [ws |-> W, cache |-> C, hist |-> H, fstab |-> T, tab |-> D.tab, htorn |-> D.htorn],
                     !.execs = {}, !.dup = FALSE, !.baks = {}, !.takes = {}, !.nuser = @ + 1,
                     !.expect = IF Has(e, "serial") THEN e.serial ELSE <<>>,
                     !.ever0 = gg.ever, !.sc0 = gg.sinceCrash,
@@ -182,7 +185,7 @@ Fold(gg, e, W, C, H, T, scopeT) ==
 
 \* every action ends with this: the event it produced and the ghost folded over it
 Emit(e) == /\ ev' = e
-           /\ g' = Fold(g, e, ws', cache', hist', fstab', IF e.a = "ret" THEN ScopeTargets(goal) ELSE {})
+           /\ g' = Fold(g, e, ws', cache', hist', fstab', rdir, IF e.a = "ret" THEN ScopeTargets(goal) ELSE {})
 
 (* ---------------- clock ---------------------------------------------------- *)
 Tick == ClockModel = "tick"
@@ -195,7 +198,7 @@ Idle == mode = "idle"
 UserFrame == UNCHANGED vol /\ verdict' = "none"
 
 SetRules(rs) ==
-  /\ Idle /\ ValidRules(rs) /\ rules' = rs
+  /\ Idle /\ rules' = rs
   /\ clock' = clock + 1 /\ UserFrame /\ UNCHANGED <<ord, env, disk>>
   /\ Emit([a |-> "rules", rules |-> rs])
 
@@ -226,6 +229,22 @@ DelRuler(what) ==
   /\ clock' = clock + 1 /\ UserFrame /\ UNCHANGED <<ord, rules, env, ws>>
   /\ Emit([a |-> "delruler", what |-> what])
 
+\* move a file over another path, keeping its stamp and mode (mv, cp -p): an old file can land on a target path
+Move(p, q) ==
+  /\ Idle /\ Has(ws, p) /\ p # q
+  /\ ws' = Put(Del(ws, p), q, ws[p])
+  /\ clock' = clock + 1 /\ UserFrame /\ UNCHANGED <<ord, rules, env, cache, hist, fstab, rdir>>
+  /\ Emit([a |-> "mv", p |-> p, q |-> q])
+
+\* damage a state file (the table, or the history of one rule): it no longer deserialises
+Corrupt(what, rid) ==
+  /\ Idle
+  /\ IF what = "table"
+     THEN /\ rdir.tab = "ok" /\ rdir' = [rdir EXCEPT !.tab = "torn"] /\ fstab' = EmptyF /\ UNCHANGED hist
+     ELSE /\ Has(hist, rid) /\ rdir' = [rdir EXCEPT !.htorn = @ \cup {rid}] /\ hist' = Del(hist, rid) /\ UNCHANGED fstab
+  /\ clock' = clock + 1 /\ UserFrame /\ UNCHANGED <<ord, rules, env, ws, cache>>
+  /\ Emit([a |-> "corrupt", what |-> what, rid |-> rid])
+
 ChangeEnv(v) ==
   /\ Idle /\ env' = v
   /\ clock' = clock + 1 /\ UserFrame /\ UNCHANGED <<ord, rules, disk>>
@@ -239,7 +258,7 @@ NewLocals == [pc |-> "recv", got |-> <<>>, i |-> 1, res |-> <<>>, rem |-> <<>>, 
 InitDir == [rdir EXCEPT !.root = TRUE, !.cache = TRUE, !.hist = TRUE, !.tab = IF @ = "absent" THEN "ok" ELSE @]
 EarlyError(gl, nodes) ==
   IF rdir.tab = "torn" THEN "err:FailedToReadCurrentFileStates"
-  ELSE IF gl # "" /\ gl \notin AllTargets THEN "err:TopologicalSortFailed"
+  ELSE IF ~SortOK(gl) THEN "err:TopologicalSortFailed"
   ELSE IF \E k \in DOMAIN nodes : RuleId(nodes[k]) \in rdir.htorn THEN "err:HistoryError"
   ELSE ""
 
@@ -248,7 +267,7 @@ StartEv(a, gl, extra) == [q \in {"a", "g"} \cup DOMAIN extra |-> IF q = "a" THEN
 \* T: the file-state table this build starts from (fstab, or empty for the twin run of C18)
 StartBuildWith(gl, T, extra) ==
   /\ Idle
-  /\ LET nodes == IF gl = "" \/ gl \in AllTargets THEN PlanNodes(gl) ELSE <<>>
+  /\ LET nodes == IF SortOK(gl) THEN PlanNodes(gl) ELSE <<>>
          leaves == PlanLeaves(nodes)
          er == EarlyError(gl, nodes)
          nl == Len(leaves)  nn == Len(nodes)
@@ -287,9 +306,9 @@ CAdv(r, l, W) == IF l.i > Len(r.tg) THEN [l EXCEPT !.pc = "done", !.result = "ok
 
 StartClean(gl) ==
   /\ Idle
-  /\ LET nodes == IF gl = "" \/ gl \in AllTargets THEN PlanNodes(gl) ELSE <<>>
+  /\ LET nodes == IF SortOK(gl) THEN PlanNodes(gl) ELSE <<>>
          er == IF rdir.tab = "torn" THEN "err:FailedToReadCurrentFileStates"
-               ELSE IF gl # "" /\ gl \notin AllTargets THEN "err:TopologicalSortFailed" ELSE "" IN
+               ELSE IF ~SortOK(gl) THEN "err:TopologicalSortFailed" ELSE "" IN
      /\ rdir' = InitDir
      /\ early' = er
      /\ IF er # ""
